@@ -437,6 +437,18 @@ class Cx:
         return self.fn[-1] if self.fn else ("", "")
 
 
+def _is_generator_body(body):
+    st = list(body)
+    while st:
+        n = st.pop()
+        if isinstance(n, (ast.Yield, ast.YieldFrom)):
+            return True
+        if isinstance(n, (ast.FunctionDef, ast.AsyncFunctionDef, ast.Lambda, ast.ClassDef)):
+            continue
+        st.extend(ast.iter_child_nodes(n))
+    return False
+
+
 class Interp:
     """Interprets one context (concrete class C, entry function) of the program model."""
 
@@ -1681,8 +1693,32 @@ class Interp:
 
     def run_fn(self, body, env, cx):
         rets = []
+        if _is_generator_body(body):
+            # a generator function: what the caller iterates over is the list of everything it yields (each value with the
+            # control dependencies in force where it is yielded)
+            ys = cx.__dict__.setdefault("yields", [])
+            ys.append([])
+            self.run(body, env, cx, rets)
+            out = ys.pop()
+            return V("list", elem=join(out) if out else None, deps=F().union(*[y.deps for y in out]) if out else F())
         self.run(body, env, cx, rets)
         return join(rets) if rets else V("none")
+
+    def ev_Yield(self, e, env, cx):
+        v = self.ev(e.value, env, cx) if e.value is not None else V("none")
+        ys = cx.__dict__.get("yields")
+        if ys:
+            ys[-1].append(add_deps(v, cx.ctldeps()) if v.k in ("E", "raw", "obj", "list", "rec") else v)
+        return V("none")
+
+    def ev_YieldFrom(self, e, env, cx):
+        v = self.ev(e.value, env, cx)
+        ys = cx.__dict__.get("yields")
+        if ys:
+            el = self.elem_of(v)
+            if el is not None:
+                ys[-1].append(add_deps(el, cx.ctldeps() | v.deps))
+        return V("none")
 
     # -------------------------------------------------------------------------------------------- statements
     def bind(self, t, v, env, cx):
